@@ -228,9 +228,9 @@ Proof.
   destruct (split0 s2) as [[nm s3]|] eqn:E2; try discriminate.
   destruct (split0 s3) as [[q s4]|] eqn:E3; try discriminate.
   destruct s4 as [|n1 [|n2 s5]]; try discriminate.
-  rewrite !andb_true_iff in Hc. destruct Hc as (((((Hnp & Hs5) & Hl) & Hb) & Hcn) & Hcq).
+  rewrite !andb_true_iff in Hc. destruct Hc as ((((Hnp & Hs5) & Hl) & Hb) & Hcn).
   apply Z.leb_le in Hnp. apply Z.eqb_eq in Hs5. apply Z.eqb_eq in Hl.
-  apply cleanb_eq in Hcn. apply cleanb_eq in Hcq.
+  apply cleanb_eq in Hcn.
   destruct (split0_spec _ _ _ E2) as [-> Hn0]. destruct (split0_spec _ _ _ E3) as [-> Hq0].
   cbn [forallb] in Hb. rewrite !andb_true_iff in Hb. destruct Hb as (Hbc & Hb1 & Hb2 & Hb3 & Hb4 & Hb).
   rewrite forallb_app in Hb. cbn [forallb] in Hb. rewrite !andb_true_iff in Hb. destruct Hb as (Hbn & _ & Hb).
@@ -244,8 +244,8 @@ Proof.
                  = Ok (mkParse code (i32_of l1 l2 l3 l4) nm q np tys)).
   { unfold decode_parse, decode_parse_k. cbn [get_u8 get_i32 bind].
     rewrite read_string_term by assumption. cbn [bind].
-    rewrite read_string_term by assumption. cbn [bind get_i16]. fold np. rewrite Ht. cbn [bind].
-    rewrite Hcn, Hcq. reflexivity. }
+    unfold read_query. rewrite split0_app by assumption. cbn [bind get_i16]. fold np. rewrite Ht. cbn [bind].
+    rewrite Hcn. reflexivity. }
   split; [exact Hdec|].
   (* the encoder *)
   assert (Hnp64 : 0 <= np < two64) by (unfold two64; lia).
@@ -293,32 +293,35 @@ Qed.
 Lemma ck32_in chk v : in_i32 v = true -> ck32 chk v = Ok v.
 Proof. intros H. unfold ck32. rewrite H. reflexivity. Qed.
 
+Lemma read_raw_term p r : has0 p = false -> read_raw (p ++ 0%N :: r) = Ok (p, r).
+Proof. intros H. unfold read_raw. rewrite split0_app by assumption. reflexivity. Qed.
+
+(* since 15e9536 no guard on the text: portal and old name may be any bytes *)
 Theorem bind_rename_splice : forall chk code l1 l2 l3 l4 portal old tail m,
   has0 portal = false -> has0 old = false -> has0 m = false ->
-  cleanb portal = true -> cleanb old = true ->
   let len := i32_of l1 l2 l3 l4 in
   in_i32 (len + blen m) = true -> 0 <= len + blen m - blen old < 2147483648 ->
   let buf := code :: l1 :: l2 :: l3 :: l4 :: portal ++ 0%N :: old ++ 0%N :: tail in
   rename_bind chk buf m = Ok (code :: be32 (len + blen m - blen old) ++ portal ++ 0%N :: m ++ 0%N :: tail)
   /\ splice_name 0 1 buf m = Some (code :: be32 (len + blen m - blen old) ++ portal ++ 0%N :: m ++ 0%N :: tail)
-  /\ bind_get_name buf = Ok old.
+  /\ bind_get_name buf = Ok (lossy old).
 Proof.
-  intros chk code l1 l2 l3 l4 portal old tail m Hp0 Ho0 Hm0 Hcp Hco len H1 H2 buf.
-  apply cleanb_eq in Hcp. apply cleanb_eq in Hco. subst buf. repeat split.
+  intros chk code l1 l2 l3 l4 portal old tail m Hp0 Ho0 Hm0 len H1 H2 buf.
+  subst buf. repeat split.
   - unfold rename_bind. cbn [get_u8 get_i32 bind].
-    rewrite read_string_term by assumption. cbn [bind].
-    rewrite read_string_term by assumption. cbn [bind]. fold len.
-    rewrite Hcp, Hco. rewrite ck32_in by assumption. cbn [bind].
+    rewrite read_raw_term by assumption. cbn [bind].
+    rewrite read_raw_term by assumption. cbn [bind]. fold len.
+    rewrite ck32_in by assumption. cbn [bind].
     rewrite ck32_in by (unfold in_i32; apply andb_true_intro; split; [apply Z.leb_le | apply Z.ltb_lt]; lia).
     cbn [bind].
     replace (len + blen m - blen old <? 0) with false by (symmetry; apply Z.ltb_ge; lia).
-    cbn [andb]. rewrite Hp0, Hm0. reflexivity.
+    cbn [andb]. rewrite Hm0. reflexivity.
   - unfold splice_name. cbn [take_n skip_strings]. rewrite split0_app by assumption.
     cbn [skip_strings]. rewrite split0_app by assumption. fold len.
     cbn [app]. rewrite <- app_assoc. reflexivity.
   - unfold bind_get_name. cbn [advance5 bind].
     rewrite read_string_term by assumption. cbn [bind].
-    rewrite read_string_term by assumption. cbn [bind]. rewrite Hco. reflexivity.
+    rewrite read_string_term by assumption. cbn [bind]. reflexivity.
 Qed.
 
 (** * Round trips *)
@@ -379,11 +382,11 @@ Proof.
   - unfold decode_parse, decode_parse_k. cbn [get_u8 bind].
     rewrite get_i32_be32 by assumption. cbn [bind].
     rewrite read_string_term by assumption. cbn [bind].
-    rewrite read_string_term by assumption. cbn [bind].
+    unfold read_query. rewrite split0_app by assumption.
     rewrite get_i16_be16 by assumption. cbn [bind].
     replace (Z.to_nat np) with (length tys) by lia.
     rewrite <- (app_nil_r (flat_map be32 tys)). rewrite get_n_i32_enc by assumption. cbn [bind].
-    rewrite (cleanb_eq _ Hcn), (cleanb_eq _ Hcq). reflexivity.
+    rewrite (cleanb_eq _ Hcn). reflexivity.
   - unfold parse_canonical.
     pose proof (i32_of_be32 len Hli) as Hz.
     destruct (be32 len) as [|a [|b [|c [|d [|? ?]]]]] eqn:Eb; try contradiction. destruct Hz as [Hz Hzb].
@@ -546,7 +549,11 @@ Ltac noerr_steps :=
                | discriminate ].
 
 Lemma decode_parse_noerr b : noerr (decode_parse b).
-Proof. unfold decode_parse, decode_parse_k. apply noerr_bind; [|intros [? ?]; discriminate]. noerr_steps. Qed.
+Proof.
+  unfold decode_parse, decode_parse_k. apply noerr_bind; [|intros [? ?]; discriminate].
+  apply noerr_bind; [apply noerr_get_u8|]. intros [? ?]. apply noerr_bind; [apply noerr_get_i32|]. intros [? ?].
+  apply noerr_bind; [apply noerr_read_string|]. intros [? ?]. destruct (read_query _) as [? ?]. noerr_steps.
+Qed.
 Lemma decode_bind_noerr b : noerr (decode_bind b).
 Proof. unfold decode_bind, decode_bind_k. apply noerr_bind; [|intros [? ?]; discriminate]. noerr_steps. Qed.
 Lemma decode_describe_noerr b : noerr (decode_describe b).
@@ -639,14 +646,20 @@ Proof.
   change (2 ^ (8 * Z.of_nat 4)) with 4294967296 in Ha. apply in_i32_bounds in Hx, Hy. lia.
 Qed.
 
+(* the query text is length-prefixed (Vec<u8>::hash): no condition on its bytes *)
 Theorem hstream_injective : forall q1 n1 t1 q2 n2 t2,
-  ~ In 255%N q1 -> ~ In 255%N q2 -> in_i16 n1 = true -> in_i16 n2 = true ->
+  Z.of_nat (length q1) < two64 -> Z.of_nat (length q2) < two64 -> in_i16 n1 = true -> in_i16 n2 = true ->
   forallb in_i32 t1 = true -> forallb in_i32 t2 = true ->
   Z.of_nat (length t1) < two64 -> Z.of_nat (length t2) < two64 ->
   hstream (q1, n1, t1) = hstream (q2, n2, t2) -> (q1, n1, t1) = (q2, n2, t2).
 Proof.
-  intros q1 n1 t1 q2 n2 t2 Hq1 Hq2 Hn1 Hn2 Ht1 Ht2 Hl1 Hl2 H. unfold hstream in H. cbn [app] in H.
-  apply split_at_ff in H as [-> H]; try assumption.
+  intros q1 n1 t1 q2 n2 t2 Hq1 Hq2 Hn1 Hn2 Ht1 Ht2 Hl1 Hl2 H. unfold hstream in H.
+  apply app_inj_len in H as [Hq H]; [|unfold le_bytes; rewrite !le_go_length; reflexivity].
+  unfold le_bytes in Hq.
+  apply le_go_inj in Hq; try (change (256 ^ Z.of_nat 8) with two64; change (2 ^ (8 * Z.of_nat 8)) with two64; unfold two64; lia).
+  change (2 ^ (8 * Z.of_nat 8)) with two64 in Hq.
+  assert (Hlq : length q1 = length q2) by (unfold two64 in *; lia).
+  apply app_inj_len in H as [-> H]; [|exact Hlq].
   apply app_inj_len in H as [Ha H]; [|unfold le_bytes; rewrite !le_go_length; reflexivity].
   apply app_inj_len in H as [Hb H]; [|unfold le_bytes; rewrite !le_go_length; reflexivity].
   unfold le_bytes in Ha, Hb.
